@@ -22,22 +22,23 @@ def lmp_oriented(cell):
     return c[0, 1] == 0 and c[0, 2] == 0 and c[1, 2] == 0
 
 
-def lmpdat_projection(model, style):
-    """What a LAMMPS data file of the given atom style can carry of the model."""
+def lmpdat_projection(model, style, rounded=True):
+    """What a LAMMPS data file of the given atom style can carry of the model (rounded=True: values as printed with 6 decimals)."""
     m = model.clone()
+    fr = f6 if rounded else float
     for a in m.atoms:
-        a.pos = tuple(f6(x) for x in a.pos)
-        a.mass = f6(a.mass)
+        a.pos = tuple(fr(x) for x in a.pos)
+        a.mass = fr(a.mass)
         a.extras = {}
         if style == "full":
-            a.charge = f6(a.charge)
+            a.charge = fr(a.charge)
         else:
             a.charge, a.group = 0.0, 0
     for k in KINDS:
         for t in m.terms[k]:
             t.extras = {}
     m.xlabels = {k: [] for k in m.xlabels}
-    if m.cell is not None:
+    if m.cell is not None and rounded:
         c = np.array(m.cell, float)
         if np.allclose(c, np.diag(np.diag(c)), atol=0, rtol=0):
             m.cell = np.diag([f6(c[0, 0]), f6(c[1, 1]), f6(c[2, 2])]).tolist()
@@ -94,6 +95,13 @@ def check_file_against_model(text, model, style, prefix, where):
     except readers.FormatError as e:
         bad("file-inconsistent", "written LAMMPS data file is not self-consistent: %s" % e)
     proj = lmpdat_projection(model, style)
+    # printed precision is read off the file (a writer may legitimately print more or fewer digits)
+    ncol0 = 4 if style == "full" else 2
+    dpos = min([readers.decimals(t) for a in d["atoms"] for t in a["tok"][ncol0:ncol0 + 3]] or [6])
+    dq = min([readers.decimals(a["tok"][3]) for a in d["atoms"]] or [6]) if style == "full" else 6
+    dmass = min([readers.decimals(t) for t in d.get("mass_tokens", [])] or [6])
+    prec = {"pos": readers.half_unit(dpos), "charge": readers.half_unit(dq), "mass": readers.half_unit(dmass),
+            "cell": readers.half_unit(min([readers.decimals(t) for t in d.get("box_tokens", [])] or [6]))}
     if len(d["atoms"]) != len(proj.atoms):
         bad("file-atom-count", "file has %d atoms, structure %d" % (len(d["atoms"]), len(proj.atoms)))
     cell = readers.cell_from_lmp(d["box"], d["tilt"])
@@ -103,22 +111,24 @@ def check_file_against_model(text, model, style, prefix, where):
         for k in "xyz":
             if d["box"][k][0] != 0.0:
                 bad("file-box", "box does not start at 0: %s" % (d["box"],))
-        if np.abs(np.array(cell) - np.array(proj.cell)).max() > 0:
+        mc = np.array(model.cell, float)
+        if np.abs(np.array(cell) - mc).max() > 2 * prec["cell"]:
             bad("file-box", "box/tilt in the file give cell %s, structure has %s" % (cell, proj.cell))
     masses = d["masses"]
     pc = d["coeffs"].get("Pair Coeffs")
     if proj.has_pair and pc is None and len(proj.atoms):
         bad("file-pair-coeffs-missing", "structure has pair coefficients, file has no Pair Coeffs section")
-    for i, (fa, ma) in enumerate(zip(d["atoms"], proj.atoms)):
-        if fa["pos"] != ma.pos:
-            bad("file-atom-position", "atom %d at %s in the file, %s in the structure" % (i + 1, fa["pos"], ma.pos))
+    for i, (fa, ma0) in enumerate(zip(d["atoms"], model.atoms)):
+        ma = proj.atoms[i]
+        if max(abs(x - y) for x, y in zip(fa["pos"], ma0.pos)) > prec["pos"]:
+            bad("file-atom-position", "atom %d at %s in the file, %s in the structure" % (i + 1, fa["pos"], ma0.pos))
         mass, label = masses[fa["type"] - 1]
-        if mass != ma.mass:
+        if abs(mass - ma0.mass) > prec["mass"]:
             bad("file-atom-mass", "atom %d has type %d with mass %r in the file, %r in the structure" % (i + 1, fa["type"], mass, ma.mass))
         if label != ma.label:
             bad("file-atom-label", "atom %d has type %d labelled %r in the file, %r in the structure" % (i + 1, fa["type"], label, ma.label))
         if style == "full":
-            if fa["q"] != ma.charge:
+            if abs(fa["q"] - ma0.charge) > prec["charge"]:
                 bad("file-atom-charge", "atom %d charge %r in the file, %r in the structure" % (i + 1, fa["q"], ma.charge))
             if fa["mol"] != ma.group + 1:
                 bad("file-atom-molecule", "atom %d molecule id %d in the file, group %d in the structure" % (i + 1, fa["mol"], ma.group))
@@ -160,6 +170,7 @@ def check_file_against_model(text, model, style, prefix, where):
             else:
                 if r2m.setdefault(typ, pick.tkey[1]) != pick.tkey[1] or m2r.setdefault(pick.tkey[1], typ) != typ:
                     bad("file-%s-type-classes" % k, "%s on atoms %s: type id %d does not preserve which terms share a type" % (k, ids, typ))
+    d["prec"] = prec
     return d
 
 
@@ -179,14 +190,15 @@ def restart_lmpdat(ctx, fs, real, model, name, style="full", via_save="path", vi
     except Exception as e:
         raise Violation("raises:%s" % type(e).__name__, "saving a consistent non-empty structure as LAMMPS data: %s" % e, site="save_lmpdat")
     ctx.count("restarts")
-    check_file_against_model(text, model, style, prefix, where)
+    prec = check_file_against_model(text, model, style, prefix, where)["prec"]
     try:
         re = load_lmpdat(ctx, fs, path, via_load, style, read_script)
     except Exception as e:
         raise Violation("raises:%s" % type(e).__name__, "reading back the LAMMPS data file just written: %s" % e, site="load_lmpdat")
-    proj = lmpdat_projection(model, style)
+    proj = lmpdat_projection(model, style, rounded=False)
     refmodel.structural_invariants(re, where)
-    refmodel.compare(refmodel.abstract(re), proj, prefix, where + " reload", coeff_eq=readers.coeff_eq, check_elements=False)
+    refmodel.compare(refmodel.abstract(re), proj, prefix, where + " reload", coeff_eq=readers.coeff_eq, check_elements=False,
+                     pos_tol=prec["pos"], mass_tol=prec["mass"], charge_tol=prec["charge"], cell_tol=2 * prec["cell"])
     if idempotence:
         t2, p2 = save_lmpdat(ctx, fs, re, via_save, style, name + "_2", prefix)
         re2 = load_lmpdat(ctx, fs, p2, via_load, style)
